@@ -299,6 +299,20 @@ def with_injected(r, rep, k, newvar):
     return out
 
 
+def eq_defect_var(true_obj, delta):
+    """variables (on_para_eq_constraint=False) of a clearly physical gate / POVM near `true_obj`, with an equality
+    (trace-preservation / completeness) defect of size delta"""
+    c_sys = true_obj.composite_system
+    dp = get_depolarizing_channel(0.3, c_sys)
+    if isinstance(true_obj, Gate):
+        hs = np.array(compose_qoperations(dp, true_obj).hs, copy=True)
+        hs[0, 1] += delta
+        return hs.flatten()
+    vecs = [np.array(v, copy=True) for v in compose_qoperations(true_obj, dp).vecs]
+    vecs[0][0] += delta * np.sqrt(true_obj.dim)     # sum of the elements = (1 + delta) * identity
+    return np.hstack(vecs)
+
+
 def state_var(c_sys, rho, para):
     v = qobj.vec_of(c_sys, rho)
     return v[1:] if para else v
@@ -310,6 +324,7 @@ def oracle(ctx, volume=1):
     flow_clauses(ctx, g, volume)
     single_setting_clauses(ctx, g, volume)
     global_stream_clause(ctx, g, volume)
+    same_objects_clause(ctx, g, volume)
     noise_clauses(ctx, g, volume)
     seed_clause(ctx, g, volume)
     ctx.rule = ("one case = one real simulation run compared with its repetition / another worker configuration / its "
@@ -323,7 +338,7 @@ def oracle(ctx, volume=1):
 
 
 def flow_clauses(ctx, g, volume):
-    nconf = (4 if ctx.quick else 10) * volume
+    nconf = (5 if ctx.quick else 10) * volume
     for ci in range(nconf):
         n_rep = int(g.integers(2, 5))
         num_data = [int(g.choice([10, 20])), int(g.choice([50, 100]))]
@@ -337,11 +352,13 @@ def flow_clauses(ctx, g, volume):
         testers = None
         st_testers = [("state", "x0"), ("state", "y0"), ("state", "z0"), ("state", "z1")]
         pv_testers = [("povm", "x"), ("povm", "y"), ("povm", "z")]
-        light = [CASES_BASIC[0], CASES_BASIC[2], CASES_BASIC[3]]
+        nopara = {"name": "loss-nopara-eq", "est": "loss", "loss": "fwse", "mode": "identity", "para": False,
+                  "eq": True, "ineq": True}
+        light = [CASES_BASIC[0], CASES_BASIC[2], CASES_BASIC[3], nopara]
         if ci % 10 == 3:        # a POVM as the unknown
             true, testers, cases = ("povm", "z"), st_testers, light
-        elif ci % 10 == 6:      # a gate as the unknown
-            true, testers, cases = ("gate", "hadamard"), st_testers + pv_testers, light
+        elif ci % 10 in (4, 6):      # a gate as the unknown
+            true, testers, cases = ("gate", "hadamard"), st_testers + pv_testers, [CASES_BASIC[0], nopara]
         elif ci % 10 == 8:      # a measurement process as the unknown
             true, testers, cases = ("mprocess", "z-type1"), st_testers + pv_testers, light[:2]
         n_sample = 2 if (ci % 3 == 2 or (ci % 2 == 0 and not ctx.quick)) else 1
@@ -362,8 +379,8 @@ def flow_clauses(ctx, g, volume):
         for d in diff_fp(fp0, fingerprint(run_flow(cfg))):
             ctx.violate(f"C15/flow/rerun/{d}", f"the same settings and seeds gave different {d}", rep)
         # (2) different degrees of parallelism at each level
-        counts = ([2] if ci % 3 == 2 or ci % 10 in (3, 6, 8) else [2, 4]) if ctx.quick else [2, 3, 4]
-        for level in LEVELS:
+        counts = ([2] if ci % 3 == 2 or ci % 10 in (3, 4, 6, 8) else [2, 4]) if ctx.quick else [2, 3, 4]
+        for level in (LEVELS if not (ctx.quick and ci % 10 == 4) else LEVELS[3:]):
             for nj in counts:
                 pm = {level: nj}
                 try:
@@ -398,7 +415,22 @@ def flow_clauses(ctx, g, volume):
         c_sys = base[0].simulation_setting.true_object.composite_system
         for r in base:
             check_clause(ctx, r, f"stored{ci}", dict(rep, clause="check"))
-            if not isinstance(r.simulation_setting.true_object, State):
+            tobj = r.simulation_setting.true_object
+            if isinstance(tobj, (Gate, Povm)):
+                # equality defects between / beyond the two documented thresholds (only meaningful without the
+                # equality constraint in the parametrisation)
+                para0 = bool(r.estimation_results[0].estimated_qoperation.on_para_eq_constraint)
+                if not para0:
+                    for label, delta in (("eq-defect-1e-7", 1e-7), ("eq-defect-1e-3", 1e-3), ("harmless", 0.0)):
+                        rr = r
+                        for i in range(len(r.estimation_results)):
+                            for k in range(len(r.estimation_results[i].estimated_var_sequence)):
+                                rr = with_injected(rr, i, k, eq_defect_var(tobj, 0.0))
+                        i = int(g.integers(0, len(r.estimation_results)))
+                        k = int(g.integers(0, len(cfg["num_data"])))
+                        rr = with_injected(rr, i, k, eq_defect_var(tobj, delta))
+                        check_clause(ctx, rr, f"inject{ci}-{label}", dict(rep, clause="check-inject", label=label))
+            if not isinstance(tobj, State):
                 continue
             para = bool(r.estimation_results[0].estimated_qoperation.on_para_eq_constraint)
             good = 0.6 * qobj.rand_density(g, 2) + 0.4 * np.eye(2) / 2
@@ -524,6 +556,43 @@ def global_stream_run(kind, n_rep, num_data, seed, via):
         r = sim.generate_empi_dists_and_calc_estimate(qt, true, num_data, LinearEstimator(), iteration=n_rep,
                                                       seed_or_generator=None)
     return fingerprint_single(r)
+
+
+def same_objects_clause(ctx, g, volume):
+    """execute_simulation twice on the SAME tomography / setting objects with an explicit integer seed (0 included; the
+    tomography object is not seeded itself): the global numpy stream — reseeded differently in between — must not matter"""
+    for seed in [0, 1, 7] + [int(x) for x in g.integers(2, 10 ** 6, size=(1 if ctx.quick else 6) * volume)]:
+        for via_setting in (False, True):
+            n_rep, num_data = int(g.integers(2, 4)), [30, 120]
+            rep = {"kind": "same-objects", "seed": seed, "n_rep": n_rep, "num_data": num_data, "via_setting": via_setting}
+            try:
+                a, b = same_objects_run(seed, n_rep, num_data, via_setting)
+            except Exception as e:  # noqa
+                ctx.violate("C15/single-setting/same-objects/raises", f"{type(e).__name__}: {e}", rep); continue
+            ctx.case(("same-objects", seed, via_setting), sample={"clause": "same-objects", "seed": seed})
+            ctx.count("same-objects runs seed=" + ("0" if seed == 0 else "nonzero"))
+            d = diff_single(a, b)
+            if d:
+                ctx.violate(f"C15/single-setting/same-objects/seed={'0' if seed == 0 else 'nonzero'}/{d}",
+                            f"execute_simulation twice on the same objects with integer seed {seed} "
+                            f"({'seed_data of the setting' if via_setting else 'explicit seed_or_generator'}): {d} differ", rep)
+
+
+def same_objects_run(seed, n_rep, num_data, via_setting):
+    c_sys = csys1()
+    true = generate_qoperation("state", "a", c_sys)
+    testers = [generate_qoperation("povm", nm, c_sys) for nm in "xyz"]
+    st = StandardQTomographySimulationSetting(
+        name="same", true_object=true, tester_objects=testers, estimator=LinearEstimator(), seed_data=seed, n_rep=n_rep,
+        num_data=num_data, schedules="all", eps_proj_physical=1e-5, eps_truncate_imaginary_part=1e-5)
+    qt = sim.generate_qtomography(st, para=True, init_with_seed=False)
+    out = []
+    for k in range(2):
+        np.random.seed(12345 + 999 * k)
+        with quiet():
+            r = sim.execute_simulation(qt, st, seed_or_generator=None if via_setting else seed)
+        out.append(fingerprint_single(r))
+    return out
 
 
 def fingerprint_single(r):
@@ -839,6 +908,13 @@ def replay(ctx, data):
             for x, y in zip(base, other):
                 print("   case", x["name"], "serial estimates", [v.tolist() for v in x["est"][-1]], "| parallel", [v.tolist() for v in y["est"][-1]])
             return 1 if (want in d if want else d) else 0
+    if r["kind"] == "same-objects":
+        a, b = same_objects_run(r["seed"], r["n_rep"], r["num_data"], r["via_setting"])
+        d = diff_single(a, b)
+        print("  first run :", [[p.tolist() for _, p in dd] for dd in a["empi"][0]][:1])
+        print("  second run:", [[p.tolist() for _, p in dd] for dd in b["empi"][0]][:1])
+        print("  differ in:", d)
+        return 1 if d else 0
     if r["kind"] == "global-stream":
         fp = global_stream_run(r["tomography"], r["n_rep"], r["num_data"], r["seed"], r["via"])
         for i, seq in enumerate(fp["empi"]):
